@@ -396,6 +396,8 @@ class ElfiModel(GraphicalModel):
         """
         kopy = super(ElfiModel, self).copy()
         kopy.name = "{}_copy_{}".format(self.name, random_name())
+        # The graph attributes are copied shallowly: do not share the observed data dictionary
+        kopy.observed = dict(self.observed)
         return kopy
 
     def save(self, prefix=None):
